@@ -44,7 +44,8 @@ MANIFEST = dict(
           "offer's transaction id, message type REQUEST, option 54 verbatim, parameter request list 1,3,15,6 and option "
           "50 = the four bytes of the offered address (proved whenever YourIPAddr is not the nil slice; the nil case is a "
           "proved counterexample, kept visible); renew/release/inform/discover set message type, client address, unicast "
-          "flag and parameter request list as RFC 2131 4.3-4.4 require; the packet built with user modifiers equals the "
+          "flag and parameter request list as RFC 2131 4.3-4.4 require (also proved against a separate declarative "
+          "rendering of RFC 2131 Table 5, Dhcp/Spec/V4Client.lean: C15_rfc_discover/inform/renew/release/request_selecting); the packet built with user modifiers equals the "
           "user modifiers folded over the packet built without them, so the last writer of any field prevails. The model "
           "is tied to the code on every run by regenerated facts (each builder's ordered default modifiers with their "
           "source text and constant arguments, PrependModifiers' concatenation order, newDHCPv4's literal, flag masks) "
